@@ -1,4 +1,298 @@
+/-
+  C17 — scalar numbers: modular integers, rationals and dyadic rationals compute exactly.
+  Property theorems over the mirror model `LP.Model.Scalar`.
+  Every theorem quantifies over all moduli `M ≥ 2`, all integers / dyadics / rationals.
+-/
 import LP.Model.Scalar
+import Mathlib.Data.Int.ModEq
+import Mathlib.Data.ZMod.Basic
+import Mathlib.Tactic.Ring
+import Mathlib.Tactic.NormNum.Prime
+import Mathlib.Tactic.Linarith
+import Mathlib.Tactic.LinearCombination
+import Mathlib.Tactic.FieldSimp
+import Mathlib.Algebra.Order.Floor.Ring
+import Mathlib.Data.Rat.Floor
+
 namespace LP
-theorem C17_placeholder : True := trivial
+
+/-! ### Z_M on symmetric representatives -/
+
+/-- the documented symmetric range -/
+def InRange (M : Nat) (c : Int) : Prop := lb M ≤ c ∧ c ≤ ub M
+
+theorem C17_inRingM_iff (M : Nat) (hM : 1 ≤ M) (c : Int) : inRingM M c = true ↔ InRange M c := by
+  unfold inRingM InRange lb ub
+  split_ifs with h0 h1 <;> simp <;> omega
+
+/-- the range holds exactly `M` consecutive integers: representatives are unique -/
+theorem C17_range_unique (M : Nat) (a b : Int) (ha : InRange M a) (hb : InRange M b)
+    (h : a ≡ b [ZMOD M]) : a = b := by
+  unfold InRange lb ub at *
+  have hd : (M : Int) ∣ b - a := (Int.modEq_iff_dvd).1 h
+  obtain ⟨k, hk⟩ := hd
+  have : k = 0 := by
+    rcases lt_trichotomy k 0 with hk0 | hk0 | hk0
+    · exfalso
+      have : (M:Int) * k ≤ -(M:Int) := by nlinarith
+      omega
+    · exact hk0
+    · exfalso
+      have : (M:Int) * k ≥ (M:Int) := by nlinarith
+      omega
+  subst this; omega
+
+/-- `integer_ring_normalize`: the result lies in the symmetric range and is congruent to the input. -/
+theorem C17_normalize (M : Nat) (hM : 2 ≤ M) (c : Int) :
+    InRange M (normalizeM M c) ∧ normalizeM M c ≡ c [ZMOD M] := by
+  unfold normalizeM
+  by_cases hin : inRingM M c = true
+  · simp only [hin, if_true]
+    exact ⟨(C17_inRingM_iff M (by omega) c).1 hin, Int.ModEq.refl _⟩
+  · simp only [hin]
+    have hMpos : (0:Int) < M := by omega
+    have h1 : -(M:Int) < Int.tmod c M ∧ Int.tmod c M < M :=
+      ⟨Int.lt_tmod_of_pos c hMpos, Int.tmod_lt_of_pos c hMpos⟩
+    have h2 : Int.tmod c M ≡ c [ZMOD M] := by
+      rw [Int.modEq_iff_dvd]
+      have := Int.tmod_add_mul_tdiv c M
+      exact ⟨Int.tdiv c M, by linarith⟩
+    generalize Int.tmod c M = r at h1 h2
+    have hsub : r - M ≡ r [ZMOD M] := by
+      rw [Int.modEq_iff_dvd]; exact ⟨1, by ring⟩
+    have hadd : r + M ≡ r [ZMOD M] := by
+      rw [Int.modEq_iff_dvd]; exact ⟨-1, by ring⟩
+    unfold InRange lb ub
+    simp only [Bool.false_eq_true, if_false]
+    split_ifs <;> refine ⟨⟨?_, ?_⟩, ?_⟩ <;>
+      first
+        | omega
+        | exact h2
+        | exact hsub.trans h2
+        | exact hadd.trans h2
+
+/-- the value of a normalised integer as an element of `ZMod M` is that of the input -/
+theorem C17_normalize_zmod (M : Nat) (hM : 2 ≤ M) (c : Int) :
+    ((normalizeM M c : Int) : ZMod M) = (c : ZMod M) :=
+  (ZMod.intCast_eq_intCast_iff _ _ _).2 (C17_normalize M hM c).2
+
+/-- normalisation is the identity on the range (idempotence, canonical representatives) -/
+theorem C17_normalize_id (M : Nat) (hM : 2 ≤ M) (c : Int) (h : InRange M c) : normalizeM M c = c :=
+  C17_range_unique M _ _ (C17_normalize M hM c).1 h (C17_normalize M hM c).2
+
+/-- Every ring operation returns the symmetric-range representative of the exact result. -/
+theorem C17_ring_ops (M : Nat) (hM : 2 ≤ M) (s a b : Int) (n : Nat) :
+    let K : Ring := some M
+    (InRange M (iAdd K a b) ∧ iAdd K a b ≡ a + b [ZMOD M]) ∧
+    (InRange M (iSub K a b) ∧ iSub K a b ≡ a - b [ZMOD M]) ∧
+    (InRange M (iNeg K a) ∧ iNeg K a ≡ -a [ZMOD M]) ∧
+    (InRange M (iAbs K a) ∧ iAbs K a ≡ |a| [ZMOD M]) ∧
+    (InRange M (iMul K a b) ∧ iMul K a b ≡ a * b [ZMOD M]) ∧
+    (InRange M (iMulPow2 K a n) ∧ iMulPow2 K a n ≡ a * 2 ^ n [ZMOD M]) ∧
+    (InRange M (iInc K a) ∧ iInc K a ≡ a + 1 [ZMOD M]) ∧
+    (InRange M (iDec K a) ∧ iDec K a ≡ a - 1 [ZMOD M]) ∧
+    (InRange M (iAddMul K s a b) ∧ iAddMul K s a b ≡ s + a * b [ZMOD M]) ∧
+    (InRange M (iSubMul K s a b) ∧ iSubMul K s a b ≡ s - a * b [ZMOD M]) ∧
+    (InRange M (iPow K a n) ∧ iPow K a n ≡ a ^ n [ZMOD M]) := by
+  intro K
+  have N := C17_normalize M hM
+  refine ⟨N _, N _, N _, ?_, N _, N _, N _, N _, N _, N _, ?_⟩
+  · have := N (Int.natAbs a)
+    simpa [iAbs, norm, K, Int.natCast_natAbs] using this
+  · have h := N ((a ^ n) % (M : Int))
+    refine ⟨h.1, h.2.trans ?_⟩
+    exact Int.mod_modEq _ _
+
+/-- In Z the operations are the integer operations themselves. -/
+theorem C17_Z_ops (s a b : Int) (n : Nat) :
+    iAdd none a b = a + b ∧ iSub none a b = a - b ∧ iNeg none a = -a ∧ iAbs none a = |a| ∧
+    iMul none a b = a * b ∧ iMulPow2 none a n = a * 2 ^ n ∧ iAddMul none s a b = s + a * b ∧
+    iSubMul none s a b = s - a * b ∧ iPow none a n = a ^ n := by
+  simp [iAdd, iSub, iNeg, iAbs, iMul, iMulPow2, iAddMul, iSubMul, iPow, norm]
+
+/-- extended Euclid: Bezout identity and the gcd -/
+theorem egcd_spec (a b : Nat) :
+    ((egcd a b).1 : Int) = (egcd a b).2.1 * a + (egcd a b).2.2 * b ∧ (egcd a b).1 = Nat.gcd a b := by
+  induction a, b using egcd.induct with
+  | case1 a => rw [egcd]; simp
+  | case2 a b hb ih =>
+    rw [egcd]
+    simp only [hb, dite_false]
+    obtain ⟨ih1, ih2⟩ := ih
+    refine ⟨?_, ?_⟩
+    · have hdiv : (a : Int) = (a % b : Nat) + (b : Int) * (a / b : Nat) := by
+        have := Nat.mod_add_div a b
+        exact_mod_cast this.symm
+      rw [ih1]
+      push_cast at hdiv ⊢
+      rw [hdiv]
+      have : ((a : Int) % b + b * (a / b)) % b = (a : Int) % b := by
+        rw [Int.add_mul_emod_self_left]; exact Int.emod_emod_of_dvd _ (dvd_refl _)
+      have h3 : ((a:Int) % b + b * (a / b)) / b = (a:Int) / b := by
+        rw [← hdiv]
+      rw [this, h3]
+      ring
+    · rw [ih2, Nat.gcd_comm a b, Nat.gcd_rec b a]
+      exact Nat.gcd_comm _ _
+
+/-- `integer_inv` solves `a * x ≡ 1` with the solution in the symmetric range; it succeeds exactly on units. -/
+theorem C17_inv (M : Nat) (hM : 2 ≤ M) (a : Int) :
+    (∀ r, iInv M a = some r → InRange M r ∧ a * r ≡ 1 [ZMOD M]) ∧
+    (Int.gcd a M = 1 → ∃ r, iInv M a = some r) := by
+  have hMpos : (0:Int) < M := by omega
+  have ha' : ((a % (M:Int)).toNat : Int) = a % M := Int.toNat_of_nonneg (Int.emod_nonneg _ (by omega))
+  obtain ⟨hb, hg⟩ := egcd_spec (a % (M:Int)).toNat M
+  constructor
+  · intro r hr
+    unfold iInv at hr
+    simp only at hr
+    split_ifs at hr with h1
+    injection hr with hr
+    subst hr
+    have N := C17_normalize M hM ((egcd (a % (M:Int)).toNat M).2.1 % (M:Int))
+    refine ⟨N.1, ?_⟩
+    have e1 : (egcd (a % (M:Int)).toNat M).2.1 % (M:Int) ≡ (egcd (a % (M:Int)).toNat M).2.1 [ZMOD M] :=
+      Int.mod_modEq _ _
+    have e2 : a % (M:Int) ≡ a [ZMOD M] := Int.mod_modEq _ _
+    rw [h1, ha'] at hb
+    have : (egcd (a % (M:Int)).toNat M).2.1 * (a % M) ≡ 1 [ZMOD M] := by
+      rw [Int.modEq_iff_dvd]
+      refine ⟨(egcd (a % (M:Int)).toNat M).2.2, ?_⟩
+      push_cast at hb
+      linear_combination hb
+    calc a * _ ≡ a * (egcd (a % (M:Int)).toNat M).2.1 [ZMOD M] := (N.2.trans e1).mul_left _
+      _ ≡ (a % M) * (egcd (a % (M:Int)).toNat M).2.1 [ZMOD M] := e2.symm.mul_right _
+      _ ≡ 1 [ZMOD M] := by rw [mul_comm]; exact this
+  · intro hgcd
+    unfold iInv
+    have : (egcd (a % (M:Int)).toNat M).1 = 1 := by
+      rw [hg]
+      have : Int.gcd (a % (M:Int)) M = 1 := by
+        rw [Int.emod_def, Int.sub_eq_add_neg, ← Int.mul_neg, Int.gcd_add_mul_left_left]; exact hgcd
+      have h3 : (a % (M:Int)).toNat = (a % (M:Int)).natAbs := by
+        have := Int.emod_nonneg a (b := (M:Int)) (by omega)
+        omega
+      rw [h3]; exact this
+    simp [this]
+
+/-- `integer_div_exact` in Z_M solves `b * x ≡ a` whenever a solution exists (`gcd(b, M) ∣ a`). -/
+theorem C17_div_exact (M : Nat) (hM : 2 ≤ M) (a b : Int) (h : (Int.gcd b M : Int) ∣ a) :
+    InRange M (iDivExact (some M) a b) ∧ b * iDivExact (some M) a b ≡ a [ZMOD M] := by
+  have hMpos : (0:Int) < M := by omega
+  have hb' : ((b % (M:Int)).toNat : Int) = b % M := Int.toNat_of_nonneg (Int.emod_nonneg _ (by omega))
+  obtain ⟨hbz, hg⟩ := egcd_spec (b % (M:Int)).toNat M
+  unfold iDivExact
+  simp only
+  set s := (egcd (b % (M:Int)).toNat M).2.1 with hs
+  set t := (egcd (b % (M:Int)).toNat M).2.2 with ht
+  set g := (egcd (b % (M:Int)).toNat M).1 with hgdef
+  have N := C17_normalize M hM (s * (a / (g:Int)))
+  refine ⟨N.1, ?_⟩
+  have hgg : (g : Int) = Int.gcd b M := by
+    rw [hg]
+    have h3 : (b % (M:Int)).toNat = (b % (M:Int)).natAbs := by
+      have := Int.emod_nonneg b (b := (M:Int)) (by omega)
+      omega
+    rw [h3]
+    have : Int.gcd (b % (M:Int)) M = Int.gcd b M := by
+      rw [Int.emod_def, Int.sub_eq_add_neg, ← Int.mul_neg, Int.gcd_add_mul_left_left]
+    exact_mod_cast this
+  obtain ⟨q, hq⟩ := h
+  have hdiv : a / (g:Int) = q ∨ (g:Int) = 0 := by
+    by_cases hg0 : (g:Int) = 0
+    · exact Or.inr hg0
+    · left; rw [hq, ← hgg]; exact Int.mul_ediv_cancel_left _ hg0
+  have e2 : b % (M:Int) ≡ b [ZMOD M] := Int.mod_modEq _ _
+  rw [hb'] at hbz
+  have key : b * (s * (a / (g:Int))) ≡ a [ZMOD M] := by
+    have h1 : (b % M) * (s * (a / (g:Int))) ≡ a [ZMOD M] := by
+      rw [Int.modEq_iff_dvd]
+      refine ⟨t * (a / (g:Int)), ?_⟩
+      rcases hdiv with hd | hd
+      · rw [hd, hq, ← hgg]; linear_combination (q) * hbz
+      · have : a = 0 := by rw [hq, ← hgg, hd]; simp
+        rw [this]; simp
+    exact (e2.symm.mul_right _).trans h1
+  exact (N.2.mul_left b).trans key
+
+/-- exact division in Z -/
+theorem C17_div_exact_Z (a b : Int) (h : b ∣ a) : b * iDivExact none a b = a := by
+  unfold iDivExact; exact Int.mul_tdiv_cancel' h
+
+/-- divisibility test in Z_M (composite flag): true exactly when a quotient exists. -/
+theorem C17_divides_iff (M : Nat) (a b : Int) :
+    iDivides (some M) false a b = true ↔ ∃ x : Int, a * x ≡ b [ZMOD M] := by
+  unfold iDivides
+  simp only [Bool.false_eq_true, if_false, decide_eq_true_eq]
+  constructor
+  · intro h
+    have hd : (Int.gcd a M : Int) ∣ b := Int.dvd_of_emod_eq_zero h
+    obtain ⟨k, hk⟩ := hd
+    refine ⟨Int.gcdA a M * k, ?_⟩
+    rw [Int.modEq_iff_dvd]
+    refine ⟨Int.gcdB a M * k, ?_⟩
+    have bz := Int.gcd_eq_gcd_ab a M
+    rw [hk, bz]; ring
+  · rintro ⟨x, hx⟩
+    rw [Int.modEq_iff_dvd] at hx
+    obtain ⟨j, hj⟩ := hx
+    apply Int.emod_eq_zero_of_dvd
+    have h1 : (Int.gcd a M : Int) ∣ a := Int.gcd_dvd_left _ _
+    have h2 : (Int.gcd a M : Int) ∣ (M:Int) := Int.gcd_dvd_right _ _
+    have : b = a * x + M * j := by linarith
+    rw [this]
+    exact dvd_add (Dvd.dvd.mul_right h1 _) (Dvd.dvd.mul_right h2 _)
+
+/-- divisibility test in a prime field (prime flag set, operands in the ring). -/
+theorem C17_divides_prime_iff (M : Nat) (hp : Nat.Prime M) (a b : Int) (ha : InRange M a) (hb : InRange M b) :
+    iDivides (some M) true a b = true ↔ ∃ x : Int, a * x ≡ b [ZMOD M] := by
+  rw [← C17_divides_iff]
+  unfold iDivides
+  simp only [if_true, Bool.false_eq_true, if_false, decide_eq_true_eq]
+  have hM2 := hp.two_le
+  unfold InRange lb ub at ha hb
+  by_cases ha0 : a = 0
+  · subst ha0
+    simp only [ne_eq, not_true_eq_false, false_or, Int.gcd_zero_left, Int.natAbs_natCast]
+    constructor
+    · intro h; subst h; simp
+    · intro h
+      have hd : (M:Int) ∣ b := Int.dvd_of_emod_eq_zero h
+      obtain ⟨k, hk⟩ := hd
+      rcases lt_trichotomy k 0 with h0 | h0 | h0
+      · exfalso; have : (M:Int) * k ≤ -(M:Int) := by nlinarith
+        omega
+      · subst h0; simpa using hk
+      · exfalso; have : (M:Int) * k ≥ (M:Int) := by nlinarith
+        omega
+  · simp only [ne_eq, ha0, not_false_eq_true, true_or, true_iff]
+    have hcop : Int.gcd a M = 1 := by
+      have : Nat.Coprime M a.natAbs := by
+        rw [Nat.Prime.coprime_iff_not_dvd hp]
+        intro hd
+        have := Nat.le_of_dvd (by omega) hd
+        omega
+      rw [Int.gcd_comm]
+      simpa [Int.gcd, Nat.Coprime] using this
+    rw [hcop]; simp
+
+/-- divisibility in Z -/
+theorem C17_divides_Z_iff (a b : Int) : iDivides none false a b = true ↔ a ∣ b := by
+  unfold iDivides
+  by_cases h : a = 0
+  · subst h; simp
+  · simp only [h, if_false, decide_eq_true_eq]
+    exact ⟨Int.dvd_of_emod_eq_zero, Int.emod_eq_zero_of_dvd⟩
+
+/-- sign and comparison are those of the representatives -/
+theorem C17_sgn_cmp (K : Ring) (a b : Int) :
+    iSgn K a = sgnI (norm K a) ∧ iCmp K a b = cmpI (norm K a) (norm K b) ∧
+    (iIsZero K a = true ↔ norm K a = 0) := by
+  simp [iSgn, iCmp, iIsZero]
+
+/-! ### non-vacuity: concrete states meeting the hypotheses -/
+example : InRange 6 (-2) ∧ InRange 6 3 ∧ ¬ InRange 6 (-3) := by unfold InRange lb ub; omega
+example : (Int.gcd 4 6 : Int) ∣ 2 ∧ Int.gcd 3 7 = 1 ∧ (2:Int) ∣ 6 := by decide
+example : Nat.Prime 7 ∧ InRange 7 3 ∧ InRange 7 (-3) := by unfold InRange lb ub; exact ⟨by norm_num, by omega, by omega⟩
+
 end LP
